@@ -73,6 +73,7 @@ def run(ctx):
         codes += [("Golay(23,12)", lambda: E.GolayCodeEncoder(), [("SyndromeLookupDecoder", lambda e: D.SyndromeLookupDecoder(e), "hard", True)]),
                   ("Golay(23,12)/ML", lambda: E.GolayCodeEncoder(), [("BruteForceMLDecoder", lambda e: D.BruteForceMLDecoder(e), "hard", False)])]
     modems = [("BPSK", lambda: (M.BPSKModulator(), M.BPSKDemodulator()), 1), ("QPSK", lambda: (M.QPSKModulator(), M.QPSKDemodulator()), 2)]
+    modems.append(("Identity", lambda: (M.IdentityModulator(), M.IdentityDemodulator()), 1))
     for o in (4, 8, 16):
         for g in (True, False):
             modems.append(("PSK%d-%s" % (o, "gray" if g else "binary"), (lambda o=o, g=g: (M.PSKModulator(o, gray_coding=g), M.PSKDemodulator(o, gray_coding=g))), o.bit_length() - 1))
@@ -87,6 +88,9 @@ def run(ctx):
     tables = {}
     for mname, mk, b in modems:
         mod, dem = mk()
+        if not hasattr(mod, "constellation"):          # identity modem: bits pass through, no table
+            tables[mname] = (None, None, None, 1.0, False)
+            continue
         c = mod.constellation
         pts64 = [complex(z) for z in c]
         labs = [[int(v) for v in row] for row in mod.bit_patterns.tolist()] if hasattr(mod, "bit_patterns") else [[0], [1]]
@@ -123,6 +127,8 @@ def run(ctx):
         for dname, mkdec, kind, multiblock in decs:
             dec = quiet(mkdec, enc)
             for mname, mkmod, b in modems:
+                if mname == "Identity" and kind != "hard":
+                    continue                       # bits are not LLRs: the identity modem matches hard-decision decoders only
                 blocks = 1
                 if n % b:
                     blocks = b // math.gcd(n, b)
@@ -186,6 +192,22 @@ def run(ctx):
                     for i in range(len(pats)):
                         ctx.nontriv((cname, dname, mname, "flip", pats[i], tuple(sel[i])))
                     run_chain(C.LambdaChannel(lambda s, *a, **kk: tx), xin, "%d..%d flipped bits per block, all/sampled positions" % (1, t), "bit-flips")
+                    if mname == "Identity":
+                        # the same decoder object sees every pattern twice, with the bits held in the dtypes a caller may use
+                        for dt in (torch.int32, torch.int64, torch.float64):
+                            for ps in ("first", "second"):
+                                try:
+                                    out = quiet(chain(enc, dec, mkmod, C.LambdaChannel(lambda s, *a, **kk: tx.to(s.dtype))), xin.to(dt), **kw)
+                                except Exception:
+                                    ctx.count("dtype-rejected")
+                                    break
+                                ctx.count("bit-flip-chains", len(pats))
+                                if tuple(out.shape) != tuple(xin.shape) or not torch.equal(out.to(torch.float32), xin):
+                                    bad = int((out.to(torch.float32) != xin).any(dim=1).nonzero()[0]) if tuple(out.shape) == tuple(xin.shape) else 0
+                                    ctx.violation(key % "bit-flips-dtype", "%s + %s over the identity modem, %s pass with %s bits: message %s comes back as %s (<= %d flipped bits per block)" % (
+                                        cname, dname, ps, str(dt).split(".")[1], [int(v) for v in xin[bad].tolist()], [int(v) for v in out[bad].tolist()] if tuple(out.shape) == tuple(xin.shape) else tuple(out.shape), t),
+                                        dict(rep, dtype=str(dt)))
+                                    break
                     # model correspondence for the syndrome decoder: the bit-level chain with the same error words
                     if dname == "SyndromeLookupDecoder" and have_cert and blocks == 1 and n - k <= 8 and len(exprs) < 400:
                         for i in rng.sample(range(len(pats)), min(6, len(pats))):
@@ -204,6 +226,8 @@ def run(ctx):
                             exprs.append("c09_link_ml %s %s %s %s" % (cnat(k), fec.cNl(gs), cN(e), cN(m)))
                             meta.append(("link", cname, m))
                 # 3. every symbol displaced by less than half the minimum distance
+                if mname == "Identity":
+                    continue
                 nsym = n * blocks // b
                 xin = x[rng.sample(range(len(rows)), min(len(rows), 24))]
                 g = torch.Generator().manual_seed(rng.randrange(1 << 30))
